@@ -1162,16 +1162,24 @@ static inline bool
 _dispatch_lane_try_inactive_suspend(dispatch_lane_class_t dqu)
 {
 	uint64_t old_state, new_state;
+	bool full = false;
 
 	(void)os_atomic_rmw_loop2o(dqu._dl, dq_state, old_state, new_state, relaxed, {
 		if (unlikely(!_dq_state_is_inactive(old_state))) {
 			os_atomic_rmw_loop_give_up(return false);
 		}
-		new_state = old_state + DISPATCH_QUEUE_SUSPEND_INTERVAL;
+		// the suspend count is the topmost field of dq_state: when it is
+		// full one more suspension would carry out of the word and all of
+		// them would be forgotten
+		if (unlikely(os_add_overflow(old_state,
+				DISPATCH_QUEUE_SUSPEND_INTERVAL, &new_state))) {
+			full = true;
+			os_atomic_rmw_loop_give_up(break);
+		}
 	});
-	if (unlikely(!_dq_state_is_suspended(old_state) ||
+	if (unlikely(full || !_dq_state_is_suspended(old_state) ||
 			_dq_state_has_side_suspend_cnt(old_state))) {
-		// Crashing here means that 128+ dispatch_suspend() calls have been
+		// Crashing here means that 63+ dispatch_suspend() calls have been
 		// made on an inactive object and then dispatch_set_target_queue() or
 		// dispatch_set_*_handler() has been called.
 		//
